@@ -18,7 +18,9 @@ Oracle (failing-input search, on the real code only, independent of the model):
               to 2e-5 and the a-priori rounding noise of both quotients (from a per-class bound on the evaluation
               error of `forward`, see fwd_abs_err) is below 1e-5 of the quotient; then |jacobian - D| <= 1e-4
               max(|jacobian|, |D|) is required, and f(x-2h) < f(x-h) < f(x+h) < f(x+2h) strictly.
-  positive    jacobian(x) > 0 (not NaN) at every x where `_jacobian`'s guard holds with a 1e-9 relative margin.
+  positive    jacobian(x) is neither negative nor NaN at every x where `_jacobian`'s guard holds (1e-9 relative
+              margin), and it is not exactly 0 wherever the judged finite difference shows a derivative above
+              the underflow threshold of doubles (1e-290).
   monotone    ordered pairs x1 < x2 of domain points (neighbours and random pairs of the sorted inputs, across
               the junctions of BoxCox2sym and Yeo-Johnson): forward(x1) <= forward(x2) + the evaluation error.
   Softmax     rows n <= 6 with s <= 0.99: numpy.linalg.det of the finite-difference matrix of partial derivatives
@@ -27,7 +29,9 @@ Oracle (failing-input search, on the real code only, independent of the model):
 Cases: per class, parameter vectors at declared bounds, defaults, exact branch values (lam = 0, +-1e-10, +-1.1e-10,
 1e-8, 2, 2+-2.001e-5 ...), non-default mininu / minilam / base, unset constants (error expected), then random ones
 (harness.c01.configs); inputs across the domain on a logarithmic grid from the edge, on the edge, outside (NaN
-expected), zero and NaN (harness.c01.x_inputs); histories of parameter changes for the delegating classes (the
+expected), zero and NaN (harness.c01.x_inputs), plus tails (tail_inputs below): magnitudes 2^k, k = 20..1000 and
+2^-k, both signs, in the natural variable of each class (u = (x-nu) scale, w = nu + scale x, s = x + nu, x/xmax,
+LogSinh's w, Logit next to its guard), with the stencil step scaled to x; histories of parameter changes for the delegating classes (the
 inner BoxCox2 is stale at the start of every call); dense sweeps of lam through the branch switches; for
 Softmax, 2-D arrays of 1..4 rows x 1..7 columns incl. rejected ones.
 A case (one element of one call) is non-trivial when the reply is a finite number.
@@ -86,7 +90,7 @@ def jac_domain(cls, P, x):
         return "power" if abs(lam) > EPS else "log"
     if cls == "YeoJohnson":
         w = P["nu"] + x * P["scale"]
-        if not fin(w) or abs(w) > 1e100:
+        if not fin(w) or abs(w) > 1e300:
             return None
         lam = P["lam"]
         if w >= EPS:
@@ -101,13 +105,15 @@ def jac_domain(cls, P, x):
         edge = -a / b + EPS
         if not xn > edge + 1e-9 * (a / b + EPS) + 8 * E * abs(xn):
             return None
-        return "logsinh" if a + b * xn < 1e6 else None
+        return "logsinh" if a + b * xn < 1e300 else None
     if cls == "Reciprocal":
         s = P["nu"] + x
-        return "reciprocal" if (s > 1e-9 * abs(P["nu"]) + 8 * E * abs(x) and 1e-150 < s < 1e150) else None
+        return "reciprocal" if (s > 1e-9 * abs(P["nu"]) + 8 * E * abs(x) and 1e-300 < s < 1e300) else None
     if cls == "Sinh":
         u = (x - P["nu"]) * P["scale"]
-        return "sinh" if fin(u) and abs(u) < 1e150 else None
+        if not (fin(u) and abs(u) < 1e300):
+            return None
+        return "sinh" if abs(u) < 1e154 else "u_squared_overflow"
     if cls == "Manly":
         lam, xm = P["lam"], P["xmax"]
         if xm != xm:
@@ -136,16 +142,16 @@ def fwd_domain(cls, P, x):
         if xm != xm:
             return False
         a, b = math.exp(P["loga"]), math.exp(P["logb"])
-        return x / xm > -a / b + EPS and a + b * x / xm < 1e6
+        return x / xm > -a / b + EPS and a + b * x / xm < 1e300
     if cls == "Reciprocal":
-        return 1e-150 < P["nu"] + x < 1e150
+        return 1e-300 < P["nu"] + x < 1e300
     if cls == "Manly":
         xm = P["xmax"]
         return xm == xm and (abs(P["lam"]) <= EPS or abs(P["lam"] * x / xm) < 700)
     if cls == "YeoJohnson":
-        return abs(P["nu"] + x * P["scale"]) < 1e100
+        return abs(P["nu"] + x * P["scale"]) < 1e300
     if cls == "Sinh":
-        return abs((x - P["nu"]) * P["scale"]) < 1e150
+        return abs((x - P["nu"]) * P["scale"]) < 1e300
     return True
 
 
@@ -171,7 +177,7 @@ def length_scale(cls, P, x):
         return (P["nu"] + x) / 4
     if cls == "Sinh":
         u = (x - P["nu"]) * P["scale"]
-        return math.sqrt(1 + u * u) / P["scale"] / 2
+        return math.hypot(1.0, u) / P["scale"] / 2
     if cls == "Manly":
         lam, xm = P["lam"], P["xmax"]
         u = x / xm
@@ -260,7 +266,7 @@ def fwd_abs_err(np, cls, P, x, f):
             return K * 2 * E * np.abs(f) + gen
         if cls == "Sinh":
             u = (x - P["nu"]) * P["scale"]
-            return K * (2 * E * np.abs(u) / np.sqrt(1 + u * u) + E * np.abs(f)) + gen
+            return K * (2 * E * np.abs(u) / np.hypot(1.0, u) + E * np.abs(f)) + gen
         if cls == "Manly":
             lam, xm = P["lam"], P["xmax"]
             if abs(lam) <= EPS:
@@ -269,6 +275,49 @@ def fwd_abs_err(np, cls, P, x, f):
             Pw = np.exp(t)
             return K * ((E + 2 * E * np.abs(t)) * Pw + E * np.abs(Pw - 1)) / abs(lam) + gen
     raise KeyError(cls)
+
+
+
+# ------------------------------------------------------------------------------------------------------
+# tails: inputs at magnitudes across the float range (both signs where the domain has two sides), in the natural
+# variable of each class (u, w, s = x + nu, ...), mapped back to x. Nothing here depends on the formulas under test.
+TAIL_K = (20, 27, 30, 31, 40, 53, 60, 64, 100, 200, 400, 511, 513, 600, 900, 1000)
+
+
+def tail_inputs(cls, P, rng, n):
+    ks = list(TAIL_K[:8]) + rng.sample(TAIL_K[8:], 3) + [rng.randint(10, 70) for _ in range(max(0, n - 11))]
+    mags = [math.ldexp(rng.choice([1.0, 1.0, 1 + rng.random()]), k) for k in ks]
+    small = [math.ldexp(1.0, -k) for k in rng.sample(TAIL_K, 4)]
+    out = []
+    if cls == "Identity":
+        out = [sg * m for m in mags for sg in (1, -1)]
+    elif cls == "Sinh":
+        out = [sg * m / P["scale"] + P["nu"] for m in mags for sg in (1, -1)]
+    elif cls == "YeoJohnson":
+        out = [(sg * m - P["nu"]) / P["scale"] for m in mags for sg in (1, -1)]
+    elif cls == "Manly":
+        xm = P["xmax"]
+        if xm == xm:
+            if abs(P["lam"]) > EPS:
+                out = [sg * f * 700.0 / abs(P["lam"]) * xm for f in (1e-3, 0.03, 0.3, 0.9, 0.999) for sg in (1, -1)]
+            out += [sg * m * xm for m in mags[:8] for sg in (1, -1)]
+    elif cls in ("Log", "Reciprocal") + BOXCOX:
+        nu = P["nu"]
+        if nu == nu:
+            out = [m - nu for m in mags] + [m - nu for m in small]
+    elif cls == "BoxCox2sym":
+        out = [sg * m for m in mags + small for sg in (1, -1)]
+    elif cls == "LogSinh":
+        xm = P["xmax"]
+        if xm == xm:
+            a, b = math.exp(P["loga"]), math.exp(P["logb"])
+            out = [(m - a) / b * xm for m in mags] + [(m - a) / b * xm for m in small]
+    elif cls == "Logit":
+        lo, d = P["lower"], math.exp(P["logdelta"])
+        for k in (1, 3, 10, 20, 30):
+            v = EPS / d * (1 + math.ldexp(1.0, -k)) + math.ldexp(1.0, -52)
+            out += [lo + v * d, lo + (1 - v) * d]
+    return [v for v in out if fin(v)]
 
 
 def pow2_floor(v):
@@ -305,9 +354,9 @@ def body(ctx):
                 continue
             stats["positive_checked"] += 1
             ctx.count(("pos", cls, C.f2h(x), json.dumps(P, sort_keys=True, default=str)), True, f"oracle/positive/{cls}/{tag}")
-            if not (j > 0):
+            if not (j >= 0):
                 ctx.finding(f"{cls}/positive/{tag}",
-                            f"{cls}.jacobian is not strictly positive (value or NaN) at a point where its own guard holds",
+                            f"{cls}.jacobian is negative or NaN at a point where its own guard holds",
                             {**case0, "x": x, "jacobian": j})
         # ---- ordered pairs
         cand = sorted({x for x in xs if fwd_domain(cls, P, x)})
@@ -343,7 +392,7 @@ def body(ctx):
         pts_rows, meta = [], []
         for x, j in zip(xs, jvals):
             tag = jac_domain(cls, P, x)
-            if tag is None or not fin(j):
+            if tag is None or j != j:
                 continue
             if cls == "BoxCox2sym" and x == 0:
                 continue
@@ -403,6 +452,14 @@ def body(ctx):
             stats["stencil_judged"] += 1
             Db = float(D[chosen])
             h = meta[chosen][3]
+            if abs(Db) < 1e-290 or (j == INF and abs(Db) > 1e290):
+                # the derivative itself is below the underflow (above the overflow) threshold of doubles
+                ctx.count(("fd", cls, C.f2h(x)), False, f"oracle/derivative/{cls}/beyond-double-range")
+                continue
+            if j == 0:
+                ctx.finding(f"{cls}/positive/{tag}",
+                            f"{cls}.jacobian is exactly 0 where the derivative of forward is a representable positive number",
+                            {**case0, "x": x, "jacobian": j, "finite_difference": Db})
             rel = abs(j - Db) / max(abs(j), abs(Db))
             stats["max_rel_jac_vs_fd"] = max(stats["max_rel_jac_vs_fd"], rel)
             ctx.count(("fd", cls, C.f2h(x), json.dumps(P, sort_keys=True, default=str)), True,
@@ -426,7 +483,7 @@ def body(ctx):
     def exercise(o, nin, note=""):
         cls = o.cls
         P = o.P()
-        xs = G.x_inputs(cls, P, rng, nin)
+        xs = G.x_inputs(cls, P, rng, nin) + tail_inputs(cls, P, rng, max(12, nin // 3))
         mp = o.mparams()
         status, payload = o.call("jac", xs)
         line = f"jac {cls} {C.flist(mp)} {C.flist(xs)}"
